@@ -56,6 +56,10 @@ def run_unit(unit, acc):
     for n in names:
         for vk, s in _variants(n):
             check_case(dict(unit, kind="name", name=s, base=n, variant=vk), acc)
+    # target lists with repeated entries, resolved by counting and non-counting converters, directly and through a configuration
+    first = next(iter(gold))
+    for n in names:
+        check_case(dict(unit, kind="repeated", name=n, other=first), acc)
     image = sorted({li.label.name for li in conv.label_infos})
     for member in image:
         check_case(dict(unit, kind="canonical", member=member), acc)
@@ -126,7 +130,44 @@ def check_case(case, acc):
     L = FAMILIES[fam]
     gold = ref.golden(fam, task, merge)
     tbl = "cls" if (fam == "traffic_light" and task == "classification2d") else ("other" if fam == "traffic_light" else "aw")
-    if case["kind"] == "name":
+    if case["kind"] == "repeated":
+        s, other = case["name"], case["other"]
+        for counting in (False, True):
+            for names_ in ([s, s], [s, other, s], [other, s, s, other], [s, s.upper(), s]):
+                cv = LabelConverter(task, merge, fam, counting)
+                acc.exec()
+                try:
+                    got = [x.name for x in set_target_lists(list(names_), cv)]
+                    want = [LabelConverter(task, merge, fam).convert_name(x).name for x in names_]
+                except Exception as ex:  # noqa
+                    acc.violation("repeated:raises", "set_target_lists(%r) raised %r" % (names_, ex), case)
+                    continue
+                acc.compared()
+                acc.state((fam, tbl, merge, "repeated", counting, len(names_), got == want), nontrivial=True)
+                if got != want:
+                    acc.violation("target-list:not-entrywise", "set_target_lists(%r) with count_label_number=%s -> %s, entry by entry the names convert to %s "
+                                  "(family=%s task=%s merge=%s)" % (names_, counting, got, want, fam, task, merge), case)
+        if task in CONFIG_TASKS:
+            from perception_eval.config import PerceptionEvaluationConfig
+            if _CFG_DIR[0] is None:
+                _CFG_DIR[0] = scratch.new_dir("c14cfg")
+            cfg = {"evaluation_task": task, "target_labels": [s, other, s], "label_prefix": fam, "merge_similar_labels": merge,
+                   "center_distance_thresholds": [[1.0, 2.0, 3.0]], "iou_2d_thresholds": [0.5]}
+            if task in ("detection", "tracking", "fp_validation"):
+                cfg.update(max_x_position=[10.0, 20.0, 30.0], max_y_position=10.0, min_point_numbers=[0, 1, 2], plane_distance_thresholds=[1.0], iou_3d_thresholds=[0.5])
+            acc.exec()
+            try:
+                ec = PerceptionEvaluationConfig(["/nonexistent"], CONFIG_TASKS[task], os.path.join(_CFG_DIR[0], "r"), cfg)
+                got = [x.name for x in ec.target_labels]
+                want = [LabelConverter(task, merge, fam).convert_name(x).name for x in (s, other, s)]
+                if got != want or [x.name for x in ec.metrics_config.target_labels] != want:
+                    acc.violation("config:target-list:not-entrywise", "configuration target_labels=%r resolves to %s (metrics: %s), entry by entry %s" % (
+                        [s, other, s], got, [x.name for x in ec.metrics_config.target_labels], want), case)
+            except Exception as ex:  # noqa
+                acc.violation("config:repeated:raises", "a configuration with target_labels=%r raised %r" % ([s, other, s], ex), case)
+            acc.compared()
+        acc.outcome((fam, tbl, merge, "repeated"))
+    elif case["kind"] == "name":
         s, base = case["name"], case["base"]
         want = gold.get(base)
         got = _entries(conv, task, fam, merge, s, acc)
